@@ -495,10 +495,17 @@ def evaluate(ctx, pid, scheds, rows, crashes, states, trans, mc_notes, convs=(),
             parent = first_strict.get(f["sid"].split("#")[0])
             if parent is not None and parent is not f:
                 f["a"], f["info"] = parent["a"], parent.get("info", "") if parent.get("info") != "inherited" else ""
+    # (was the process killed before that point of the trace?  a crash copy "sid#cN" starts with the restart)
+    killed_at = {}
+    for r in list(base_rows) + [x for e in extra for x in e[2]]:
+        if r["ev"]["a"] == "CrashRestart":
+            killed_at[r["sid"]] = min(killed_at.get(r["sid"], r["n"]), r["n"])
     for f in fails:
         if f["what"] == "C16.ConvFreshAtRest":
             fs = first_strict.get(f["sid"], f)
             f["info"] = "cause=" + fs["a"] + ("/" + fs["info"] if fs is not f and fs.get("info") else "")
+            if fs["a"] == "ConvCompute" and ("#" in f["sid"] or killed_at.get(f["sid"], 1 << 30) <= f["n"]):
+                f["info"] += "+kill"
     mine = [f for f in first_fails(fails) if PRED_PROP.get(f["what"]) == pid]
     others = sorted({f["what"] for f in fails if PRED_PROP.get(f["what"]) != pid})
     # a fresh view that cannot read an index file the service serves: the file was closed or deleted while in use (C13)
